@@ -32,9 +32,21 @@ type genFn func(prop string, seed uint64, thorough bool) *Scenario
 var generators = map[string][]genFn{}
 
 func init() {
-	for _, p := range []string{"C01", "C02", "C03", "C04", "C06", "C07", "C08", "C11", "C12", "C16", "C17", "C18"} {
+	for _, p := range []string{"C01", "C02", "C03", "C04", "C06", "C07", "C08", "C12", "C16", "C17", "C18"} {
 		generators[p] = append(generators[p], GenSession)
 	}
+	generators["C11"] = []genFn{genC11Mix}
+}
+
+// C11 also looks at what raw (non-conformant) clients do to the request discipline: every request the server
+// accepts gets exactly one response whatever it carries.  One run in four comes from the hostile generator.
+func genC11Mix(prop string, seed uint64, thorough bool) *Scenario {
+	if splitmix64(seed^0xc11)%4 == 0 {
+		sc := GenHostile(prop, seed, thorough)
+		sc.Prop = prop
+		return sc
+	}
+	return GenSession(prop, seed, thorough)
 }
 
 // WorkerStats is what one worker process reports.
